@@ -1,9 +1,13 @@
 /-
 Processing a parsed command (`processCmd` → `processEntry` → `processFields` / `addPersons` /
-`addPerson` / `addEntry`) computes exactly the reference `denoteEntry`, with no error reported.
+`addPerson` / `addEntry`) computes exactly the reference `denoteEntry`, with no error reported;
+when field names or keys repeat (up to case) it computes `denoteEntryD` (first field of a name wins,
+an entry with a key that is in the database already is dropped) and reports exactly the repetitions
+(`processFields_dups`, `processCmd_entryD`).
 -/
 import PybtexModel.Spec.Bib
 import PybtexModel.Lemmas.Basic
+import PybtexModel.Lemmas.BibReport
 
 namespace Pybtex.BibRT
 open Pybtex Pybtex.Bib Pybtex.BibSpec
@@ -134,48 +138,133 @@ theorem denoteField_persons_seen (m : Macros) (e : Entry) (f : Str × Value) (se
       · subst hr; simp
   · exact List.mem_cons_of_mem _ (hseen r hr)
 
+/-- what the field loop needs when names may repeat: person fields hold acceptable names -/
+def procOkD (m : Macros) : List (Str × Value) → Bool
+  | [] => true
+  | f :: fs =>
+    (!isPersonField f.1 || (splitNameList (normalizeWs (expand m f.2))).all personOk) && procOkD m fs
+
+theorem procOkD_of_procOk (m : Macros) (fs : List (Str × Value)) :
+    ∀ seen : List Str, procOk m seen fs = true → procOkD m fs = true := by
+  induction fs with
+  | nil => intro _ _; rfl
+  | cons f fs ih =>
+    intro seen h
+    simp only [procOk, Bool.and_eq_true] at h
+    simp only [procOkD, Bool.and_eq_true]
+    exact ⟨h.1.2, ih _ h.2⟩
+
+theorem freshNames_of_procOk (m : Macros) (fs : List (Str × Value)) :
+    ∀ seen : List Str, procOk m seen fs = true → freshNames seen fs = true := by
+  induction fs with
+  | nil => intro _ _; rfl
+  | cons f fs ih =>
+    intro seen h
+    simp only [procOk, Bool.and_eq_true] at h
+    simp only [freshNames, Bool.and_eq_true]
+    exact ⟨h.1.1, ih _ h.2⟩
+
+/-- without repetitions every field counts and nothing is reported -/
+theorem firstFields_fresh (fs : List (Str × Value)) :
+    ∀ seen : List Str, freshNames seen fs = true → firstFields seen fs = fs := by
+  induction fs with
+  | nil => intro _ _; rfl
+  | cons f fs ih =>
+    intro seen h
+    simp only [freshNames, Bool.and_eq_true, Bool.not_eq_true'] at h
+    simp only [firstFields, h.1, Bool.false_eq_true, if_false, ih _ h.2]
+
+theorem fieldReports_fresh (key : Str) (fs : List (Str × Value)) :
+    ∀ seen : List Str, freshNames seen fs = true → fieldReports key seen fs = [] := by
+  induction fs with
+  | nil => intro _ _; rfl
+  | cons f fs ih =>
+    intro seen h
+    simp only [freshNames, Bool.and_eq_true, Bool.not_eq_true'] at h
+    simp only [fieldReports, h.1, Bool.false_eq_true, if_false, ih _ h.2]
+
+/-- The field loop of `process_entry` on fields that may repeat names: the first field of every
+name (up to case) is stored, every later one is reported (`DuplicateField`, no line) and dropped.
+Continue mode, or strict mode when there is nothing to report.  The ghost `errAt` grows by one copy
+of the unread text per report. -/
+theorem processFields_dups (m : Macros) (key : Str) (wfs : List (Str × Value)) :
+    ∀ (seen : List Str) (e : Entry) (s : St), s.roles = Gen.personRoles →
+      (∀ r ∈ e.persons, lower r.1 ∈ seen) → procOkD m wfs = true →
+      (s.strict = true → fieldReports key seen wfs = []) →
+      processFields key (wfs.map fun f => (f.1, expandPieces m f.2)) seen e s
+        = .ok ((firstFields seen wfs).foldl (denoteField m) e)
+            { s with errs := s.errs ++ fieldReports key seen wfs,
+                     errAt := s.errAt ++ List.replicate (fieldReports key seen wfs).length s.rest } := by
+  induction wfs with
+  | nil =>
+    intro seen e s _ _ _ _
+    simp [processFields, firstFields, fieldReports]
+  | cons f fs ih =>
+    intro seen e s hr hseen hf hstrict
+    simp only [procOkD, Bool.and_eq_true, Bool.not_eq_true', Bool.or_eq_true] at hf
+    obtain ⟨hpers, hrest⟩ := hf
+    by_cases hdup : seen.contains (lower f.1) = true
+    · -- a repeated name: reported and dropped
+      have hs : s.strict = false := by
+        cases h : s.strict with
+        | false => rfl
+        | true => have := hstrict h; simp only [fieldReports, hdup, if_true] at this; cases this
+      have hstrict' : (s.report ⟨.duplicateField key f.1, none⟩).strict = true →
+          fieldReports key seen fs = [] := by
+        intro h; rw [St.report_strict, hs] at h; cases h
+      simp only [List.map_cons, processFields, hdup, if_true, handleError, hs, Bool.false_eq_true, if_false,
+        firstFields, fieldReports]
+      rw [ih seen e (s.report ⟨.duplicateField key f.1, none⟩) (by rw [St.report_roles]; exact hr) hseen hrest hstrict']
+      simp [St.report, List.replicate_succ, hs]
+    · have hns : seen.contains (lower f.1) = false := by simpa using hdup
+      have hstrict' : s.strict = true → fieldReports key (lower f.1 :: seen) fs = [] := by
+        intro h; have := hstrict h; simpa only [fieldReports, hns, Bool.false_eq_true, if_false] using this
+      have hval : (expandPieces m f.2).flatten = expand m f.2 := rfl
+      simp only [List.map_cons, processFields, hns, Bool.false_eq_true, if_false, hval,
+        isPersonFieldOf_roles hr, firstFields, fieldReports, List.foldl_cons]
+      have hseen' := denoteField_persons_seen m e f seen hseen
+      by_cases hpf : isPersonField f.1 = true
+      · have hok : (splitNameList (normalizeWs (expand m f.2))).all personOk = true := by
+          rcases hpers with h | h
+          · rw [hpf] at h; cases h
+          · exact h
+        have hfresh : ∀ r ∈ e.persons, lower r.1 ≠ lower f.1 := by
+          intro r hr' heq
+          have := hseen r hr'
+          rw [heq] at this
+          simp at hns
+          exact hns this
+        rw [if_pos hpf, addPersons_fresh f.1 _ e s hfresh hok]
+        simp only
+        have hden : denoteField m e f
+            = (if (splitNameList (normalizeWs (expand m f.2))).filterMap personOf = [] then e
+               else { e with persons := e.persons ++
+                        [(f.1, (splitNameList (normalizeWs (expand m f.2))).filterMap personOf)] }) := by
+          unfold denoteField personsOf
+          simp only [hpf, if_true]
+        rw [← hden]
+        exact ih (lower f.1 :: seen) (denoteField m e f) s hr hseen' hrest hstrict'
+      · have hden : denoteField m e f
+            = { e with fields := e.fields ++ [(f.1, normalizeWs (expand m f.2))] } := by
+          unfold denoteField
+          simp only [hpf, if_false, Bool.false_eq_true]
+        rw [if_neg hpf, ← hden]
+        exact ih (lower f.1 :: seen) (denoteField m e f) s hr hseen' hrest hstrict'
+
+theorem St.errs_nil_eq (s : St) : ({ s with errs := s.errs ++ [], errAt := s.errAt ++ [] } : St) = s := by
+  cases s; simp
+
 theorem processFields_ok (m : Macros) (key : Str) (wfs : List (Str × Value)) :
     ∀ (seen : List Str) (e : Entry) (s : St), s.roles = Gen.personRoles →
       (∀ r ∈ e.persons, lower r.1 ∈ seen) → procOk m seen wfs = true →
       processFields key (wfs.map fun f => (f.1, expandPieces m f.2)) seen e s
         = .ok (wfs.foldl (denoteField m) e) s := by
-  induction wfs with
-  | nil => intro seen e s _ _ _; rfl
-  | cons f fs ih =>
-    intro seen e s hr hseen hf
-    simp only [procOk, Bool.and_eq_true, Bool.not_eq_true', Bool.or_eq_true] at hf
-    obtain ⟨⟨hns, hpers⟩, hrest⟩ := hf
-    have hval : (expandPieces m f.2).flatten = expand m f.2 := rfl
-    simp only [List.map_cons, processFields, hns, Bool.false_eq_true, if_false, hval,
-      isPersonFieldOf_roles hr, List.foldl_cons]
-    have hseen' := denoteField_persons_seen m e f seen hseen
-    by_cases hpf : isPersonField f.1 = true
-    · have hok : (splitNameList (normalizeWs (expand m f.2))).all personOk = true := by
-        rcases hpers with h | h
-        · rw [hpf] at h; cases h
-        · exact h
-      have hfresh : ∀ r ∈ e.persons, lower r.1 ≠ lower f.1 := by
-        intro r hr' heq
-        have := hseen r hr'
-        rw [heq] at this
-        simp at hns
-        exact hns this
-      rw [if_pos hpf, addPersons_fresh f.1 _ e s hfresh hok]
-      simp only
-      have hden : denoteField m e f
-          = (if (splitNameList (normalizeWs (expand m f.2))).filterMap personOf = [] then e
-             else { e with persons := e.persons ++
-                      [(f.1, (splitNameList (normalizeWs (expand m f.2))).filterMap personOf)] }) := by
-        unfold denoteField personsOf
-        simp only [hpf, if_true]
-      rw [← hden]
-      exact ih (lower f.1 :: seen) (denoteField m e f) s hr hseen' hrest
-    · have hden : denoteField m e f
-          = { e with fields := e.fields ++ [(f.1, normalizeWs (expand m f.2))] } := by
-        unfold denoteField
-        simp only [hpf, if_false, Bool.false_eq_true]
-      rw [if_neg hpf, ← hden]
-      exact ih (lower f.1 :: seen) (denoteField m e f) s hr hseen' hrest
+  intro seen e s hr hseen hf
+  have hfresh := freshNames_of_procOk m wfs seen hf
+  have hrep := fieldReports_fresh key wfs seen hfresh
+  rw [processFields_dups m key wfs seen e s hr hseen (procOkD_of_procOk m wfs seen hf) (fun _ => hrep),
+    firstFields_fresh wfs seen hfresh, hrep]
+  simp only [List.length_nil, List.replicate_zero, St.errs_nil_eq]
 
 theorem denoteField_key (m : Macros) (e : Entry) (f : Str × Value) :
     (denoteField m e f).key = e.key := by
@@ -198,7 +287,7 @@ theorem denoteEntry_key (m : Macros) (ty key : Str) (wfs : List (Str × Value)) 
 /-! ### `add_entry` -/
 
 theorem addEntry_ok (s : St) (key : Str) (e : Entry) (hi : ProcInv s) (hek : e.key = key)
-    (hk : s.db.entries.any (fun e => lower e.key = lower key) = false) :
+    (hk : s.db.entries.any (fun e => keyFold e.key = keyFold key) = false) :
     addEntry s key e = .ok () { s with db := { s.db with entries := s.db.entries ++ [e] } } := by
   have hw : wantEntry s.db key = true := by unfold wantEntry; rw [hi.wanted]
   have hh : hasEntry s.db key = false := hk
@@ -212,13 +301,58 @@ theorem addEntry_ok (s : St) (key : Str) (e : Entry) (hi : ProcInv s) (hek : e.k
 /-! ### commands -/
 
 theorem processCmd_entry (m : Macros) (ty key : Str) (wfs : List (Str × Value)) (s : St)
-    (hi : ProcInv s) (hk : s.db.entries.any (fun e => lower e.key = lower key) = false)
+    (hi : ProcInv s) (hk : s.db.entries.any (fun e => keyFold e.key = keyFold key) = false)
     (hf : procOk m [] wfs = true) :
     processCmd (Cmd.entry ty (some key) (wfs.map fun f => (f.1, expandPieces m f.2))) s
       = .ok () { s with db := { s.db with entries := s.db.entries ++ [denoteEntry m ty key wfs] } } := by
   simp only [processCmd, processEntry]
   rw [processFields_ok m key wfs [] _ s hi.roles (by intro r hr; cases hr) hf]
   exact addEntry_ok s key _ hi (denoteEntry_key m ty key wfs) hk
+
+/-- `add_entry` on a key that is in the database already (up to case): reported, not added -/
+theorem addEntry_dup (s : St) (key : Str) (e : Entry) (hw : s.db.wanted = none) (hs : s.strict = false)
+    (hk : s.db.entries.any (fun e => keyFold e.key = keyFold key) = true) :
+    addEntry s key e = .ok () (s.report ⟨.repeatedEntry key, none⟩) := by
+  have hh : hasEntry s.db key = true := hk
+  simp only [addEntry, wantEntry, hw, Bool.not_true, Bool.false_eq_true, if_false, hh, if_true, handleError, hs]
+
+theorem denoteEntryD_eq (m : Macros) (ty key : Str) (fs : List (Str × Value)) :
+    denoteEntryD m ty key fs = denoteEntry m ty key (firstFields [] fs) := rfl
+
+theorem denoteEntryD_key (m : Macros) (ty key : Str) (wfs : List (Str × Value)) :
+    (denoteEntryD m ty key wfs).key = key := denoteEntry_key m ty key _
+
+/-- Processing an entry command whose fields may repeat names and whose key may be in the database
+already: the duplicate fields are reported first, then the entry is either added (first fields
+only) or reported as repeated and dropped.  Continue mode, or strict mode when there is nothing
+to report. -/
+theorem processCmd_entryD (m : Macros) (ty key : Str) (wfs : List (Str × Value)) (s : St)
+    (hi : ProcInv s) (hf : procOkD m wfs = true) (R : List Err)
+    (hR : R = fieldReports key [] wfs ++
+      (if s.db.entries.any (fun e => keyFold e.key = keyFold key) then [⟨.repeatedEntry key, none⟩] else []))
+    (hstrict : s.strict = true → R = []) :
+    processCmd (Cmd.entry ty (some key) (wfs.map fun f => (f.1, expandPieces m f.2))) s
+      = .ok () { s with
+          db := (if s.db.entries.any (fun e => keyFold e.key = keyFold key) then s.db
+                 else { s.db with entries := s.db.entries ++ [denoteEntryD m ty key wfs] }),
+          errs := s.errs ++ R, errAt := s.errAt ++ List.replicate R.length s.rest } := by
+  have hstrictF : s.strict = true → fieldReports key [] wfs = [] := by
+    intro h; have := hstrict h; rw [hR] at this; exact (List.append_eq_nil_iff.1 this).1
+  simp only [processCmd, processEntry]
+  rw [processFields_dups m key wfs [] _ s hi.roles (by intro r hr; cases hr) hf hstrictF]
+  show addEntry _ key (denoteEntryD m ty key wfs) = _
+  by_cases hk : s.db.entries.any (fun e => keyFold e.key = keyFold key) = true
+  · have hs : s.strict = false := by
+      cases h : s.strict with
+      | false => rfl
+      | true => have := hstrict h; rw [hR, if_pos hk] at this; simp at this
+    rw [addEntry_dup { s with errs := s.errs ++ fieldReports key [] wfs, errAt := s.errAt ++ List.replicate (fieldReports key [] wfs).length s.rest } key _ hi.wanted hs hk]
+    subst hR
+    simp [St.report, hk, List.replicate_succ']
+  · have hk' : s.db.entries.any (fun e => keyFold e.key = keyFold key) = false := by simpa using hk
+    rw [addEntry_ok { s with errs := s.errs ++ fieldReports key [] wfs, errAt := s.errAt ++ List.replicate (fieldReports key [] wfs).length s.rest } key (denoteEntryD m ty key wfs) ⟨hi.wanted, hi.cit, hi.roles⟩ (denoteEntryD_key m ty key wfs) hk']
+    subst hR
+    simp [hk', denoteEntryD]
 
 theorem processCmd_preamble (m : Macros) (v : Value) (s : St) :
     processCmd (Cmd.preamble (expandPieces m v)) s
